@@ -42,13 +42,14 @@ def gen_sp_case(rng, flavor):
                 ops.append(['rollback', rng.randrange(nsp)])
             elif r < 0.9:
                 ops.append(['plain', rng.randrange(5)])
-        ops.append(rng.choice([['commit', None], ['commit', None], ['abort'], ['failcommit', 'vote', 0]]))
+        ops.append(rng.choice([['commit', None], ['commit', None, 'min'], ['commit', None, 'min'], ['abort'],
+                               ['failcommit', 'vote', 0]]))
         have = [s for s in have]          # optimistic
     ops.append(['commit', None])
     return dict(level='db', flavor=flavor, keep_old=False, gc=True, copy=False, ops=ops)
 
 
-def gen_case(rng, flavor=None, size=None):
+def _gen_case(rng, flavor=None, size=None):
     flavor = flavor or rng.choice(['fs', 'fs', 'wrap'])
     if rng.random() < 0.2:
         return gen_sp_case(rng, flavor)
@@ -87,6 +88,14 @@ def gen_case(rng, flavor=None, size=None):
         elif r < 0.45 and linked:
             ops.append(['consume', rng.choice(linked), gen_data(rng)])
             clean = False
+        elif r < 0.47 and clean and rng.random() < 0.4:
+            # commit attempted with the blob still open for writing (ValueError), close, abort, retry
+            s = rng.choice(SLOTS)
+            ops.append(['openretry', s, gen_data(rng)])
+            if s not in cur:
+                cur[s] = 'linked'
+            end_txn(True)
+            ncommit += 1
         elif r < 0.50:
             ops.append(['plain', rng.randrange(9)])
             clean = False
@@ -172,6 +181,16 @@ def gen_case(rng, flavor=None, size=None):
                 copy=rng.random() < 0.2, ops=ops)
 
 
+def gen_case(rng, flavor=None, size=None):
+    c = _gen_case(rng, flavor, size)
+    if c['flavor'] == 'fs':
+        # a record-transforming wrapper (hexstorage) between the DB and the FileStorage
+        c['hex'] = rng.random() < 0.3
+        # at the end: first read of every blob through a fresh DemoStorage over this storage
+        c['demo'] = rng.random() < 0.3
+    return c
+
+
 def apply_mode(mode, cur, data):
     """what a Python file opened with `mode` on a copy of `cur` holds after write(data)"""
     if mode == 'w':
@@ -239,7 +258,7 @@ def run_case(case, root):
 
     with clock.scripted():
         env = Env(os.path.join(root, 'db'), flavor, keep_old=case.get('keep_old', False),
-                  pack_gc=case.get('gc', True))
+                  pack_gc=case.get('gc', True), hex=bool(case.get('hex')))
         try:
             db = env.open_db()
             tm0 = transaction.TransactionManager()
@@ -260,6 +279,7 @@ def run_case(case, root):
             V = dict(bytes={}, linked=set(), dirty=set(), created=set(), root=False, since_sp=set())
             sps = []                    # [(savepoint, snapshot)]
             faulted = [False]
+            oid_hint = {}
             # a second long-lived connection with its own uncommitted working copies
             tm1 = transaction.TransactionManager()
             c1 = db.open(tm1)
@@ -483,9 +503,17 @@ def run_case(case, root):
                 if undo_of is None:
                     for slot in sorted(V['dirty'] | V['created']):
                         b = objs.get(slot)
-                        if b is None or b._p_oid is None:
+                        if b is None and slot in V['linked']:
+                            try:
+                                b = objs[slot] = r0[slot]      # references were dropped before the commit
+                            except KeyError:
+                                b = None
+                        if b is not None and b._p_oid is not None:
+                            oid = u64(b._p_oid)
+                        elif b is None and slot in oid_hint:
+                            oid = oid_hint[slot]
+                        else:
                             continue
-                        oid = u64(b._p_oid)
                         data = V['bytes'][slot]
                         if oid in hist:
                             nontrivial[0] = True              # a blob is rewritten
@@ -493,6 +521,12 @@ def run_case(case, root):
                         hist.setdefault(oid, []).append((tid, data))
                         C['bytes'][slot] = data
                         oids[oid] = slot
+                    for s2 in V['linked']:
+                        if s2 not in objs:
+                            try:
+                                objs[s2] = r0[s2]
+                            except KeyError:
+                                pass
                     C['linked'] = {s: u64(objs[s]._p_oid) for s in V['linked'] if s in objs
                                    and objs[s]._p_oid is not None}
                 else:
@@ -532,6 +566,12 @@ def run_case(case, root):
                 for slot in list(V['created']):
                     objs.pop(slot, None)
                 reset_view()
+                for slot in C['linked']:
+                    if slot not in objs:
+                        try:
+                            objs[slot] = r0[slot]
+                        except KeyError:
+                            pass
 
             def free_slot(slot):
                 return slot not in objs
@@ -671,6 +711,18 @@ def run_case(case, root):
                                     V['bytes'][slot] = data
                         stored_blob = bool(V['dirty'] | V['created'])
                         mine = {u64(objs[s2]._p_oid) for s2 in V['dirty'] if s2 in objs and objs[s2]._p_oid}
+                        if len(op) > 2 and op[2] == 'min':
+                            # drop every reference to the blob objects and minimise the cache before the commit:
+                            # what a savepoint has stored must be committed from the savepoint storage alone
+                            for s2, o2 in objs.items():
+                                if o2._p_oid is not None:
+                                    oid_hint[s2] = u64(o2._p_oid)
+                            objs.clear()
+                            b = f = fh = sp = None
+                            import gc
+                            c0.cacheMinimize()
+                            gc.collect()
+                            cnt('commit:minimized')
                         try:
                             tm0.commit()
                         except Exception as e:
@@ -719,6 +771,55 @@ def run_case(case, root):
                             nontrivial[0] = True              # fails after storeBlob
                         aborted()
                         boundary('failcommit-%s-%d' % (op[1], op[2]))
+                    elif kind == 'openretry':
+                        slot = op[1]
+                        if V['dirty'] or V['created'] or V['root'] or (slot in objs and slot not in V['linked']):
+                            cnt('skip')
+                            continue
+                        tm0.abort()
+                        F0.clear()
+                        data = decode_data(op[2])
+                        fresh = slot not in objs
+                        if fresh:
+                            b = Blob()
+                            fh = b.open('w')
+                            want = data
+                        else:
+                            b = objs[slot]
+                            fh = b.open('a')
+                            want = V['bytes'][slot] + data
+                        try:
+                            fh.write(data)
+                            if fresh:
+                                r0[slot] = b
+                            try:
+                                tm0.commit()
+                                bad('C13:commit-with-open-blob', 'commit succeeded although the blob was open for writing')
+                            except ValueError:
+                                cnt('openretry:refused')
+                        finally:
+                            fh.close()
+                        tm0.abort()
+                        guard()
+                        check_disk('abort')
+                        # retry: the same data, the blob closed this time
+                        if fresh:
+                            r0[slot] = b
+                            objs[slot] = b
+                            V['linked'].add(slot)
+                            V['created'].add(slot)
+                            V['root'] = True
+                            emit('obj.new %s' % slot[1], 'ok')
+                        else:
+                            check_own_view('abort')          # the working copy of the refused attempt is gone
+                            with b.open('a') as f:
+                                f.write(data)
+                            V['dirty'].add(slot)
+                        V['bytes'][slot] = want
+                        tm0.commit()
+                        guard()
+                        committed(u64(db.lastTransaction()))
+                        boundary('commit')
                     elif kind == 'failfinish':
                         if flavor != 'wrap':
                             cnt('skip')
@@ -960,6 +1061,50 @@ def run_case(case, root):
                 for sg, w in cp:
                     bad(sg, w)
                 cnt('copy')
+            if case.get('demo') and flavor == 'fs' and not problems:
+                # a fresh DemoStorage over this storage: the FIRST read of every blob goes through the base's
+                # blob files (the demo has no blob directory of its own yet); a rewrite inside the demo stays
+                # in the demo, the base's blob directory is untouched
+                import tempfile
+                from ZODB.DemoStorage import DemoStorage
+                import ZODB
+                saved_tmp = tempfile.tempdir
+                tempfile.tempdir = root
+                try:
+                    demo = DemoStorage(base=env.top)
+                    dbd = ZODB.DB(demo)
+                    tmd = transaction.TransactionManager()
+                    cd = dbd.open(tmd)
+                    try:
+                        rd = cd.root()
+                        for slot in sorted(C['linked']):
+                            try:
+                                got = read_blob(rd[slot])
+                            except Exception as e:
+                                bad('C13:demo-first-read', 'first read of blob %s through a fresh DemoStorage raised '
+                                    '%s: %s' % (slot, type(e).__name__, str(e)[:100]))
+                                continue
+                            if got != C['bytes'][slot]:
+                                bad('C13:demo-first-read', 'DemoStorage reads %r for %s, committed %r'
+                                    % (got[:40], slot, C['bytes'][slot][:40]))
+                        for slot in sorted(C['linked'])[:1]:
+                            if problems:
+                                break
+                            with rd[slot].open('a') as f:
+                                f.write(b'!demo')
+                            tmd.commit()
+                            if read_blob(rd[slot]) != C['bytes'][slot] + b'!demo':
+                                bad('C13:demo-first-read', 'blob %s rewritten inside the DemoStorage reads wrong bytes' % slot)
+                        cnt('demo')
+                    finally:
+                        tmd.abort()
+                        cd.close()
+                    check_disk('demo')
+                except Exception as e:
+                    bad('C13:demo-first-read', 'DemoStorage over the blob storage: %s: %s' % (type(e).__name__, str(e)[:120]))
+                finally:
+                    tempfile.tempdir = saved_tmp
+                    f = cd = rd = dbd = demo = None
         finally:
             env.close()
     if faulted[0]:
